@@ -92,6 +92,10 @@ fn stress(seed: u64, rounds: u64, threads: usize, ops: usize, patience: Duration
         // another price, text / JSON renderings); units are then not accounted for (an amendment's
         // delta depends on what a concurrent match left), only the state oracles apply
         let full_mix = round % 2 == 1;
+        // two rounds in eight are long, the others short (a sixteenth): every round ends in a
+        // quiescent comparison, and what a race among the last few operations leaves behind shows
+        // only there, so many short rounds give many such endings for the same work
+        let ops = if round % 8 < 2 { ops } else { (ops / 16).max(4) };
         let level = Arc::new(PriceLevel::new(100));
         let gen = Arc::new(UuidGenerator::new(uuid::Uuid::from_u128(0x57e55)));
         let supplied = Arc::new(AtomicU64::new(0));
@@ -166,6 +170,16 @@ fn stress(seed: u64, rounds: u64, threads: usize, ops: usize, patience: Duration
                             let _ = (s.orders.len(), level.to_string().len());
                         }
                     }
+                }
+                // every thread ends with add-then-list pairs: the round's last mutations run while
+                // other threads are listing (a listing served from anything older than the last
+                // mutation shows in the quiescent comparison below)
+                for _ in 0..3 {
+                    let id = OrderId::from_u64(next_id.fetch_add(1, Ordering::Relaxed));
+                    let q = 1 + rnd() % 10;
+                    supplied.fetch_add(q, Ordering::Relaxed);
+                    level.add_order(OrderType::Standard { id, price: 100, quantity: q, side: Side::Sell, timestamp: rnd() % 50, time_in_force: TimeInForce::Gtc, extra_fields: () });
+                    let _ = if rnd() % 2 == 0 { level.iter_orders().len() } else { level.snapshot().orders.len() };
                 }
                 let _ = tx.send(t);
             });
